@@ -224,6 +224,9 @@ def run(fx, R, tier, sv_ratio=1e-12, sv_why='with cond(J) < 1e6 (quantifier) the
         check_instance(fx, R, cq, cname)
         check_shortcuts(fx, R, cq, cname)
         check_set_data_size(fx, R, cq, cname)
+        check_workspaces(fx, R, cq, cname)
+        for g_ in fx.fn(cq + '::setEstimateSize'):
+            R.used(g_)                    # the other configuration call of a sequence of problems: swept for state it leaves behind
         check_normal(fx, R, cq, cname)
         check_paths(fx, R, cq, cname)
         check_weight_precond(fx, R, cq, cname)
@@ -262,6 +265,36 @@ def check_set_data_size(fx, R, cq, cname):
     only = all(n == 'setDataSize' for (n, _, _) in shr)
     R.form(only, 'L1', cname + ':buffer-resizes', 'row buffers are resized/reset outside setDataSize (%s); what that does to the rows of the current problem is judged by the instance rule L7 only for the paths it '
            'reads' % [t_ for t_ in shr if t_[0] != 'setDataSize'], 'row buffers resized only in setDataSize (column-only resizes elsewhere)', fx.rel(f['loc']), 'E-STATE')
+
+
+def check_workspaces(fx, R, cq, cname):
+    """L1 (type fact): a dynamic Eigen matrix with a compile-time MAXIMUM size (Matrix<T, Dynamic, Dynamic, Options, MaxRows, MaxCols>) used by the solver must be able to hold the problems of the
+    quantifier: estimate sizes up to 8 (normal matrix 8x8, estimate 8x1).  Eigen checks the bound with an assertion only; the library is built with NDEBUG."""
+    import re
+    found = []
+    rec = fx.records.get(cq) or {}
+    types = [((fl_.get('t') or {}).get('s', ''), 'member ' + fl_['name'], None) for fl_ in rec.get('fields', [])]
+    for mth in rec.get('methods', []):
+        for g in fx.fn(mth['q']):
+            if g.get('body') is None:
+                continue
+            for x in walk(g['body']):
+                if isinstance(x, dict) and x.get('k') == 'Decl':
+                    for v in x['vars']:
+                        types.append(((v.get('t') or {}).get('s', ''), 'local `%s` of %s()' % (v['name'], g['name']), x.get('loc')))
+    for (ts, what, loc_) in types:
+        for mm in re.finditer(r'Eigen::Matrix<[^<>]*?, (-?\d+), (-?\d+), \d+, (-?\d+), (-?\d+)>', ts):
+            r_, c_, mr, mc = (int(mm.group(k_)) for k_ in (1, 2, 3, 4))
+            caps = [(n_, m_) for (n_, m_) in ((r_, mr), (c_, mc)) if n_ == -1 and m_ != -1]
+            if caps and min(m_ for (_n, m_) in caps) < 8:
+                found.append((what, mm.group(0), min(m_ for (_n, m_) in caps), loc_))
+    if found:
+        what, ty, cap, loc_ = found[0]
+        R.violated('L1', cname.split('<')[0] + ':workspace-capacity', '%s has the type %s: a dynamic matrix whose storage is a fixed buffer of at most %d rows / columns.  The quantifier has estimate sizes up to 8 '
+                   '(an 8x8 normal matrix): for sizes above %d the decomposition writes beyond that buffer - Eigen checks the bound with an assertion only and the library is built with NDEBUG - so the result is '
+                   'whatever the overrun leaves (typically a crash); sizes up to %d are unchanged' % (what, ty, cap, cap, cap), fx.rel(loc_) if loc_ else None, 'E-INT')
+    else:
+        R.holds('L1', cname + ':workspace-capacity', 'no matrix of the solver has a compile-time maximum size below the 8 parameters of the quantifier (%d declarations read)' % len(types), None, 'E-INT')
 
 
 def check_capacity(fx, R, cq, cname, f):
